@@ -195,6 +195,62 @@ def elemSem (s : ElemSig) (n : Nat) (self : Nat → K) (k : K) (x : Nat → K) (
 
 end
 
+/-! ### elementwise loops that fill a fresh result (fvector.hh `v*k`, `k*v`, `v/k`; fmatrix.hh `A+B`, `A-B`, `A*k`, `k*A`,
+`A/k`; densematrix.hh unary minus): `for i [for j] result[i][j] = L op R` -/
+
+/-- operand of the right-hand side: entry of the first / second matrix (vector) argument, the scalar argument -/
+inductive EwOpd where
+  | a | b | k
+  deriving DecidableEq, Repr
+
+/-- `L + R`, `L - R`, `L * R`, `L / R`, `- L` -/
+inductive EwOp where
+  | add | sub | mul | div | neg
+  deriving DecidableEq, Repr
+
+structure EwSig where
+  lhs : EwOpd
+  op : EwOp
+  rhs : EwOpd
+  deriving DecidableEq, Repr
+
+/-- how unary minus declares its result (densematrix.hh / densevector.hh): as a value of the autonomous type
+(`AutonomousValue<MAT> result = asImp()`: for a scalar view a FieldMatrix<K,1,1> / FieldVector<K,1>) or with the operand's own
+type (`MAT result = asImp()`: for a scalar view a second handle onto the same scalar, which the loop then writes through) -/
+inductive NegResult where
+  | autonomous | sameType
+  deriving DecidableEq, Repr
+
+/-- how `leftmultiply` / `rightmultiply` produce the product in place: accumulated in the copy `C` from the untouched `*this`
+and `M`, then copied back (an argument that is the matrix itself is read unmodified), or written into `*this` directly while
+`M` is still being read -/
+inductive InPlaceVia where
+  | copyBack | direct
+  deriving DecidableEq, Repr
+
+section
+variable {K : Type _} [Add K] [Sub K] [Mul K] [Neg K] [Div K]
+
+def ewOpd (o : EwOpd) (a b k : K) : K :=
+  match o with
+  | .a => a
+  | .b => b
+  | .k => k
+
+def ewVal (s : EwSig) (a b k : K) : K :=
+  match s.op with
+  | .add => ewOpd s.lhs a b k + ewOpd s.rhs a b k
+  | .sub => ewOpd s.lhs a b k - ewOpd s.rhs a b k
+  | .mul => ewOpd s.lhs a b k * ewOpd s.rhs a b k
+  | .div => ewOpd s.lhs a b k / ewOpd s.rhs a b k
+  | .neg => - ewOpd s.lhs a b k
+
+/-- `for (i = 0; i < n; ++i) result[i] = L op R;` with in-place stores into `t` -/
+def ewSemVec (s : EwSig) (n : Nat) (a b : Nat → K) (k : K) (t : Vec K) : Vec K :=
+  forN n (fun i t => t.upd i (ewVal s (a i) (b i) k)) t
+
+end
+
 /-! ### three-deep product loop nests (fmatrix.hh, densematrix.hh)
 
 ```
@@ -240,6 +296,11 @@ structure ProdSig where
 /-- in-place store `M[a][b] = v` -/
 def Mat.upd {K : Type _} (M : Mat K) (a b : Nat) (v : K) : Mat K :=
   ⟨M.rows, M.cols, fun r c => if r = a ∧ c = b then v else M.e r c⟩
+
+/-- `for (i < rows) for (j < cols) result[i][j] = L op R;` with in-place stores into `T` -/
+def ewSemMat {K : Type _} [Add K] [Sub K] [Mul K] [Neg K] [Div K]
+    (s : EwSig) (rows cols : Nat) (A B : Nat → Nat → K) (k : K) (T : Mat K) : Mat K :=
+  forN rows (fun i T => forN cols (fun j T => T.upd i j (ewVal s (A i j) (B i j) k)) T) T
 
 def pidx (x : PIdx) (i j k : Nat) : Nat :=
   match x with
